@@ -31,13 +31,13 @@ class ToMatchpyExpressionMapper(BasePymMapper):
 
     def map_call(self, expr: p.Call) -> m.Call:
         return m.Call(self.rec(expr.function),
-                      m.TupleOp(tuple(self.rec(p)
-                                      for p in expr.parameters)))
+                      m.TupleOp(*[self.rec(p)
+                                  for p in expr.parameters]))
 
     def map_subscript(self, expr: p.Subscript) -> m.Subscript:
         return m.Subscript(self.rec(expr.aggregate),
-                           m.TupleOp(tuple(self.rec(idx)
-                                           for idx in expr.index_tuple)))
+                           m.TupleOp(*[self.rec(idx)
+                                       for idx in expr.index_tuple]))
 
     def map_sum(self, expr: p.Sum) -> m.Sum:
         return m.Sum(*[self.rec(child)
